@@ -271,6 +271,106 @@ def incremental_case(ctx, rng):
     return {'c': c, 'nt': True, 'key': ('incremental', kind, tuple(items))}
 
 
+def kept_partial_case(ctx, rng):
+    """a value read with get_value while only SOME of the bindings exist is kept by the host (a template with
+    unbound variables inside); those bindings are undone, other bindings are made, and the kept value is read again:
+    it must follow the bindings of that moment at every depth, whatever was current when it was first read"""
+    real = ctx['real']
+    E = real.E
+    vs, eqs, order = gen_system(rng)
+    if len(vs) > 6:
+        vs, eqs = vs[:6], None
+        return {'c': {}, 'nt': False, 'key': None, 'discard': 'system_too_big_for_this_scenario'}
+    c = {'kept_partial_values': 1}
+    yp = real.engine()
+    vmap = {}
+    robs = [build_real(yp, v, vmap) for v in vs]
+    name_of = {id(vmap[v]): v for v in vs}
+    j = rng.randrange(1, len(eqs) + 1)
+    first = [eqs[i] for i in order[:j]]
+    s = {}
+    for a, b in first:
+        if sto([(a, b)], s):
+            return {'c': c, 'nt': False, 'key': None, 'discard': 'sto_or_unsat'}
+        try:
+            s = ref_unify(a, b, s)
+        except Cyclic:
+            return {'c': c, 'nt': False, 'key': None, 'discard': 'sto_or_unsat'}
+        if s is None:
+            return {'c': c, 'nt': False, 'key': None, 'discard': 'sto_or_unsat'}
+    w = {'equations_phase_1': [[rterm(a), rterm(b)] for a, b in first]}
+    held = []
+
+    def to_term(o, depth=0):
+        if isinstance(o, E.Variable):
+            if o._is_bound or id(o) not in name_of:
+                raise ValueError('unexpected variable')
+            return name_of[id(o)]
+        if isinstance(o, E.Atom):
+            return A(o._name)
+        if isinstance(o, E.Functor):
+            return ('c', o._name, tuple(to_term(x, depth + 1) for x in o._args))
+        if isinstance(o, bool):
+            raise ValueError('bool')
+        if isinstance(o, int):
+            return I(o)
+        return ('s', o)
+    try:
+        for a, b in first:
+            g = iter(E.unify(build_real(yp, a, vmap), build_real(yp, b, vmap)))
+            held.append(g)
+            next(g)
+        kept = [E.get_value(v) for v in robs]
+        try:
+            kept_terms = [to_term(k) for k in kept]
+        except ValueError:
+            return {'c': c, 'nt': True, 'key': None, 'v': {'kind': 'get_value_result_contains_a_bound_variable', 'detail': {'where': 'partial state'}, 'witness': w}}
+    except StopIteration:
+        return {'c': c, 'nt': True, 'key': None, 'v': {'kind': 'unify_failed', 'detail': {}, 'witness': w}}
+    finally:
+        while held:
+            held.pop().close()
+    if kept_terms != [resolve(v, s) for v in vs]:
+        return {'c': c, 'nt': True, 'key': None, 'v': {'kind': 'bindings_wrong', 'detail': {'where': 'partial state', 'expected': [resolve(v, s) for v in vs], 'got': kept_terms}, 'witness': w}}
+    free = []
+    for t in kept_terms:
+        for v in term_vars(t):
+            if v not in free:
+                free.append(v)
+    if not free:
+        return {'c': c, 'nt': False, 'key': None}
+    # phase 2: other bindings for the variables that were free in the kept values (as many as, fewer than, or more
+    # than there were bindings in phase 1)
+    rng.shuffle(free)
+    second = [(v, rng.choice(CONST + [C('f', A('b'))])) for v in free[:rng.choice([1, 1, 2, len(free), j])]]
+    s2 = {}
+    for a, b in second:
+        s2 = ref_unify(a, b, s2)
+    w['bindings_phase_2'] = [[rterm(a), rterm(b)] for a, b in second]
+    try:
+        for a, b in second:
+            g = iter(E.unify(build_real(yp, a, vmap), build_real(yp, b, vmap)))
+            held.append(g)
+            next(g)
+        for i, k in enumerate(kept):
+            val = E.get_value(k)
+            if bound_variable_inside(E, val):
+                return {'c': c, 'nt': True, 'key': None, 'v': {'kind': 'get_value_result_contains_a_bound_variable',
+                                                               'detail': {'where': 'kept value read again under other bindings', 'variable': i}, 'witness': w}}
+            want = canon([resolve(kept_terms[i], s2)], {})
+            got = snap_real(E, [val])
+            if got != want:
+                return {'c': c, 'nt': True, 'key': None, 'v': {'kind': 'kept_value_does_not_follow_the_bindings',
+                                                               'detail': {'variable': i, 'expected': want, 'got': got}, 'witness': w}}
+            if not has_partial_list(resolve(kept_terms[i], s2)) and E.to_python(k) != pyvalue(resolve(kept_terms[i], s2)):
+                return {'c': c, 'nt': True, 'key': None, 'v': {'kind': 'to_python_at_answer_wrong', 'detail': {'where': 'kept value', 'variable': i}, 'witness': w}}
+            c['kept_values_reread'] = c.get('kept_values_reread', 0) + 1
+    finally:
+        while held:
+            held.pop().close()
+    return {'c': c, 'nt': True, 'key': ('kept', tuple(first), tuple(second))}
+
+
 def _walk_raw(E, value, cap=100000):
     """every node of a term as stored (no dereferencing)"""
     stack = [value]
@@ -287,6 +387,8 @@ def run_case(ctx, seed, idx, tier):
     rng = random.Random((seed * 1000003 + idx) * 7 + 15)
     if idx % 25 == 7:
         return incremental_case(ctx, rng)
+    if idx % 25 == 11:
+        return kept_partial_case(ctx, rng)
     real = ctx['real']
     E = real.E
     vs, eqs, order = gen_system(rng)
